@@ -464,7 +464,7 @@ STATIC char const * _soxr_init(
     s->phase_bits = phase_bits;
     s->L = arbL;
     s->use_hi_prec_clock =
-      mode>1 && (q_spec->flags & SOXR_HI_PREC_CLOCK) && !rational;
+      (q_spec->flags & SOXR_HI_PREC_CLOCK) && !rational;
 #if WITH_FLOAT_STD_PREC_CLOCK
     if (order && !s->use_hi_prec_clock) {
       s->at.flt = at;
